@@ -108,7 +108,7 @@ def _run(env):
             muts = []
             for nt in SAME_SHAPE.get(p['type'], []):
                 muts.append(('type->%#x' % nt, hdr + 1, nt))
-            for npk in {1, 17, 19, 22} - {p['pkalg']}:
+            for npk in {1, 2, 3, 16, 17, 18, 19, 20, 22} - {p['pkalg']}:
                 muts.append(('pkalg->%d' % npk, hdr + 2, npk))
             for nh in {2, 8, 10, 11} - {p['halg']}:
                 muts.append(('halg->%d' % nh, hdr + 3, nh))
@@ -135,6 +135,45 @@ def _run(env):
                 ctx.case('mut-packet', (name, label, what))
                 if not falsy(o):
                     ctx.fail('mut-packet', 'mutated signature packet (%s) still verifies' % what, dict(case0, pos=pos, val=val, what=what))
+
+            # --- signature integers that differ by more than a bit flip: octets prepended to each MPI (value + k*256^len),
+            #     an extra trailing MPI, a dropped trailing octet ---
+            ints = S.read_mpis(p['mpis'])
+            pre = raw[:len(raw) - len(p['mpis'])]
+            variants = []
+            for idx in range(len(ints)):
+                for mult in (1, 0xa5, 0x0102030405):
+                    n = (ints[idx].bit_length() + 7) // 8
+                    v2 = list(ints); v2[idx] = ints[idx] + (mult << (8 * n))
+                    variants.append(('mpi%d+%x*256^%d' % (idx, mult, n), b''.join(S.mpi(x) for x in v2)))
+            variants.append(('short-mpi', p['mpis'][:-1]))
+            for what, mp in variants:
+                # rebuild the packet with a correct header length
+                nb = bytes([4]) + body[:len(body) - len(p['mpis'])] + mp
+                mut = S.sig_packet(nb)
+                o = verify_blob(env, vpub, sobj, mut)
+                ctx.case('mut-packet', (name, label, what))
+                if not falsy(o):
+                    ctx.fail('mut-packet', 'signature with altered integers (%s) still verifies' % what, dict(case0, what=what, mutated=mut.hex()))
+
+            # --- histories on ONE signature object: a good verification must not make a later wrong one pass ---
+            sobj_sig = pgpy.PGPSignature.from_blob(raw)
+            first = outcome(lambda: bool(vpub.verify(sobj, sobj_sig)))
+            later = []
+            for ms in mutate_subject(env, label, sobj, msubj, rng)[:2]:
+                later.append(('subject', outcome(lambda: bool(vpub.verify(ms, sobj_sig)))))
+            if msubj[0] in ('uid', 'uattr'):
+                twin2 = pgpy.PGPUID.new('Mallory', comment='x', email='m@example.com'); twin2._parent = vpub
+                later.append(('forged-uid', outcome(lambda: bool(vpub.verify(twin2, sobj_sig)))))
+            if msubj[0] in ('key', 'subkey'):
+                later.append(('other-key', outcome(lambda: bool(vpub.verify(otherpub, sobj_sig)))))
+            again = outcome(lambda: bool(vpub.verify(sobj, sobj_sig)))
+            ctx.case('same-object-history', (name, label))
+            if first != ('ok', True) or again != ('ok', True):
+                ctx.fail('same-object-history', 'repeated verification of one signature object is not stable', dict(case0, first=repr(first), again=repr(again)))
+            for what, o in later:
+                if not falsy(o):
+                    ctx.fail('same-object-history', 'after one good verification the same signature object verifies over a different %s' % what, dict(case0, what=what))
 
             # --- wrong key: another key of the pool, and the right key id on the wrong key material ---
             o = verify_blob(env, otherpub, sobj if msubj[0] == 'doc' else sobj, raw)
